@@ -24,6 +24,16 @@ func runFind(c *Case) []string {
 	ws, we := a.int(), a.int()
 	pat := a.ints()
 	fn, n := a.int(), a.int()
+	// the pattern is handed over as a window of a longer slice the caller still uses (spare capacity behind it):
+	// the library must not write to the window nor around it
+	const guard = 7777
+	backing := make([]int, len(pat)+6)
+	for i := range backing {
+		backing[i] = guard
+	}
+	copy(backing[3:], pat)
+	origPat := pat
+	pat = backing[3 : 3+len(pat)]
 	v, src, errs := makeTestNumber(c.Ver, kind, raw, rep, exp)
 	if errs != "" {
 		return []string{errs}
@@ -35,12 +45,25 @@ func runFind(c *Case) []string {
 		v = v.WithEnd(we)
 	}
 	var res []int
+	// the lazy entry points (Find, FindR, Matches, BackwardMatches) have been handed the pattern when their iterator
+	// is consumed: the caller may reuse its slice by then, the reported positions are those of the pattern as passed
+	scramble := func() {
+		for i := range pat {
+			if pat[i] == 5 {
+				pat[i] = 6
+			} else {
+				pat[i] = 5
+			}
+		}
+	}
 	pull := func(it func() int, k int) {
+		scramble()
 		for i := 0; i < k; i++ {
 			res = append(res, it())
 		}
 	}
 	take := func(it func() int, k int) { // emulate a push iterator stopped after k items by a pull iterator
+		scramble()
 		for k < 0 || len(res) < k {
 			x := it()
 			if x == -1 {
@@ -110,6 +133,7 @@ func runFind(c *Case) []string {
 			return []string{"NOTFINITE"}
 		}
 		run := func(seq func(yield func(int) bool), k int) {
+			scramble()
 			if k == 0 {
 				return
 			}
@@ -171,6 +195,15 @@ func runFind(c *Case) []string {
 				res = append(res, -777)
 			}
 		}
+	}
+	for i, x := range backing {
+		if (i < 3 || i >= 3+len(pat)) && x != guard {
+			res = append(res, -555) // the library wrote outside the pattern it was given
+			break
+		}
+	}
+	if fn <= 4 && !eqInts(pat, origPat) {
+		res = append(res, -556) // the library modified the caller's pattern
 	}
 	var t toks
 	t.ints(res)
